@@ -66,6 +66,27 @@ def check(ctx, fname, sname, sp, f, tags, rng):
         return
     ctx.case('conjugate-pair;%s;%s' % (fname, sname), 0)
     novalue = 'novalue' in tags
+    # documented convention 0 log 0 := 0 (prior with exact zeros): the values *on* the boundary of the domains, where the
+    # limit argument of the rounding allowance below does not reach
+    if fname == 'KullbackLeibler(prior-with-zeros)' and not util.is_pspace(sp):
+        ctx.ev('fy-equality')
+        try:
+            g = np.asarray(f.prior)
+            z = (g == 0)
+            if z.any():
+                with np.errstate(all='ignore'):
+                    ya = np.where(z, 1.0, 0.3)
+                    want = -sp.element(np.where(z, 0.0, g * np.log(1 - ya))).inner(sp.one())
+                    got = fc(sp.element(ya))
+                    if not np.isclose(got, want, rtol=1e-12, atol=1e-12):
+                        ctx.violation(comp, cfg, 'conjugate-inconsistent', symptom='0-log-0-convention:conjugate at y=1 where the prior is 0', got=float(got), ref=float(want))
+                    xa = np.where(z, 0.0, 1.7)
+                    wantf = sp.element(np.where(z, 0.0, xa - g + g * np.log(np.where(z, 1.0, g) / np.where(z, 1.0, xa)))).inner(sp.one())
+                    gotf = f(sp.element(xa))
+                    if not np.isclose(gotf, wantf, rtol=1e-12, atol=1e-12):
+                        ctx.violation(comp, cfg, 'conjugate-inconsistent', symptom='0-log-0-convention:value at x=0 where the prior is 0', got=float(gotf), ref=float(wantf))
+        except Exception as e:
+            ctx.violation(comp, cfg, 'raises:' + type(e).__name__, message=str(e)[:200], probe='0-log-0')
     # Fenchel-Young inequality
     if not novalue:
         try:
